@@ -46,7 +46,7 @@ theorem lapApply_congr (n : Nat) (a : Mat α) (reg : α) (v v' : Nat → α) (h 
 theorem lapMatvec_congr (op : LapOp α) (a : Mat α) (x x' : Vec α) (h : ∀ j, j < op.n → vget x j = vget x' j)
     (i : Nat) (hi : i < op.n) : vget (lapMatvec op a x) i = vget (lapMatvec op a x') i := by
   unfold lapMatvec
-  by_cases hnm : op.normalized = true <;> by_cases hr : 0 < op.reg
+  by_cases hnm : op.normalized = true <;> by_cases hr : (!(op.reg == 0)) = true
   all_goals simp only [hnm, hr, if_true, if_false, Bool.false_eq_true]
   all_goals simp +contextual only [vget_tab, hi, if_true, h]
 
@@ -70,7 +70,7 @@ theorem spectral_index_lt (values : Vec α) (c : Nat) (hc : c < ((argsort values
 /-- **Spectral, random-walk decomposition.**  Under the solver contract, every returned pair
     `(eigenvalues_[c], eigenvectors_[:, c])` is an eigenpair of the regularised transition matrix
     `D_reg⁻¹ (A + reg·11ᵀ/n)`: `P v = λ v` with `λ = 1 − λ_sym`, `v = D^{-1/2} u`. -/
-theorem spectralPost_rw_eigen (F : Fn α) (n : Nat) (hn : 0 < n) (a : Mat α) (reg : α) (hreg : 0 ≤ reg) (nm : Bool)
+theorem spectralPost_rw_eigen (F : Fn α) (n : Nat) (hn : 0 < n) (a : Mat α) (reg : α) (nm : Bool)
     (hsq : ∀ i, i < n → F.sqrt ((∑ j ∈ range n, mget a i j) + reg) * F.sqrt ((∑ j ∈ range n, mget a i j) + reg)
                         = (∑ j ∈ range n, mget a i j) + reg)
     (values : Vec α) (vectors : Mat α)
@@ -95,7 +95,7 @@ theorem spectralPost_rw_eigen (F : Fn α) (n : Nat) (hn : 0 < n) (a : Mat α) (r
     have := hsol c' hidx r (by rw [hop]; exact hr)
     rw [hop] at this
     rw [this, vget_tab_lt _ hr]
-  have key := rw_eigen_of_sym_vec F n hn a reg hreg hsq (tab n fun r => mget vectors r c') (vget values c') heig i hi
+  have key := rw_eigen_of_sym_vec F n hn a reg hsq (tab n fun r => mget vectors r c') (vget values c') heig i hi
   -- read the outputs
   have hvec : ∀ j, j < n →
       mget (spectralPost F n (lapInit F n a reg true) true nm values vectors).2.1 j c
@@ -112,7 +112,7 @@ theorem spectralPost_rw_eigen (F : Fn α) (n : Nat) (hn : 0 < n) (a : Mat α) (r
 
 /-- **Spectral, Laplacian decomposition.**  Under the solver contract, every returned pair is an eigenpair of the
     regularised Laplacian `D_reg − A_reg`. -/
-theorem spectralPost_laplacian_eigen (F : Fn α) (n : Nat) (hn : 0 < n) (a : Mat α) (reg : α) (hreg : 0 ≤ reg) (nm : Bool)
+theorem spectralPost_laplacian_eigen (F : Fn α) (n : Nat) (hn : 0 < n) (a : Mat α) (reg : α) (nm : Bool)
     (values : Vec α) (vectors : Mat α)
     (hsol : IsEigenpairs (lapInit F n a reg false) a values vectors)
     (c : Nat) (hc : c < (spectralPost F n (lapInit F n a reg false) false nm values vectors).1.length)
@@ -137,7 +137,7 @@ theorem spectralPost_laplacian_eigen (F : Fn α) (n : Nat) (hn : 0 < n) (a : Mat
     simp only [spectralPost, Bool.false_eq_true, if_false]
     rw [vget_map_lt _ _ 0 c hlen, hc']
   have := hsol c' hidx i (by rw [hop]; exact hi)
-  rw [hop, lapMatvec_plain F n hn a reg hreg _ i hi] at this
+  rw [hop, lapMatvec_plain F n hn a reg _ i hi] at this
   rw [lapApply_congr n a reg _ _ hvec i hi, this, hval, hvec i hi, vget_tab_lt _ hi]
 
 end SkNet.Embedding
